@@ -36,7 +36,13 @@ type XObject struct {
 
 // NewXObject returns a new object with the given properties
 func NewXObject(properties map[string]XValue) *XObject {
-	return NewXLazyObject(func() map[string]XValue { return properties })
+	o := NewXLazyObject(func() map[string]XValue { return properties })
+
+	// the properties are already known so there's nothing to gain from initializing lazily.. and objects created this
+	// way can be shared between sessions, e.g. package level values, where initializing on first use is a data race
+	o.ensureInitialized()
+
+	return o
 }
 
 // NewXLazyObject returns a new lazy object with the source function and default
